@@ -214,11 +214,8 @@ func CanBeUnquoted(a string) bool {
 	if strings.ContainsAny(a, " \t\r\n;{}\"'") || strings.Contains(a, "//") || strings.Contains(a, "/*") || strings.Contains(a, "*/") {
 		return false
 	}
-	if strings.HasPrefix(a, "+") || a == "+" {
-		return false
-	}
-	// a '+' inside an unquoted word is lexed as a token of its own by the implementation
-	if strings.Contains(a, "+") {
+	// a lone '+' is the concatenation sign; inside or at the start of a longer word it is an ordinary character
+	if a == "+" {
 		return false
 	}
 	return true
